@@ -207,33 +207,67 @@ Section HeapLemmas.
     run less ops = (Some l, outs) -> Permutation (popped outs ++ l) (pushed ops).
   Proof. intros ops l outs H. apply run_multiset_gen in H. exact H. Qed.
 
-  (* ---------- heap shape under a strict weak order ---------- *)
-  Hypothesis less_asym : forall a b, less a b = true -> less b a = false.
-  Hypothesis less_negtrans : forall a b c, less a c = true -> less a b = true \/ less b c = true.
+  (* ---------- heap shape under a strict weak order on the DISTINCT elements of a set ----------
+     The less function only has to be asymmetric and negatively transitive on
+     pairs / triples of DIFFERENT elements of [dom]: nothing is asked of
+     less x x (the victims queue answers true there), nothing outside [dom]. *)
+  Variable dom : A -> Prop.
+  Hypothesis eq_dec : forall a b : A, {a = b} + {a <> b}.
+  Hypothesis less_asym : forall a b, dom a -> dom b -> a <> b -> less a b = true -> less b a = false.
+  Hypothesis less_negtrans : forall a b c, dom a -> dom b -> dom c -> a <> b -> b <> c -> a <> c ->
+    less a c = true -> less a b = true \/ less b c = true.
 
-  (* "a does not come after b" *)
-  Definition le (a b : A) : Prop := less b a = false.
+  (* "a does not come after b": the same element, or b does not precede a *)
+  Definition le (a b : A) : Prop := dom a /\ dom b /\ (a = b \/ less b a = false).
 
-  Lemma le_refl : forall a, le a a.
-  Proof. intros a. unfold le. destruct (less a a) eqn:E; auto. rewrite (less_asym _ _ E) in E. discriminate. Qed.
+  Lemma le_refl : forall a, dom a -> le a a.
+  Proof. intros a H. split; [|split]; auto. Qed.
 
   Lemma le_trans : forall a b c, le a b -> le b c -> le a c.
   Proof.
-    unfold le. intros a b c H1 H2. destruct (less c a) eqn:E; auto.
-    destruct (less_negtrans _ b _ E) as [H|H]; congruence.
+    intros a b c [Da [Db H1]] [_ [Dc H2]]. split; [|split]; auto.
+    destruct (eq_dec a c) as [|Nac]; [left; auto|]. right.
+    destruct H1 as [E1|H1]; [subst b; destruct H2 as [E2|H2]; [congruence | exact H2]|].
+    destruct H2 as [E2|H2]; [subst c; exact H1|].
+    destruct (less c a) eqn:E; auto.
+    destruct (eq_dec c b) as [Ecb|Ncb]; [subst; congruence|].
+    destruct (eq_dec b a) as [Eba|Nba]; [subst; congruence|].
+    destruct (less_negtrans c b a Dc Db Da Ncb Nba (fun e => Nac (eq_sym e)) E) as [H|H]; congruence.
   Qed.
 
-  Lemma less_le : forall a b, less a b = true -> le a b.
-  Proof. unfold le. intros. apply less_asym. auto. Qed.
+  Lemma less_le : forall a b, dom a -> dom b -> less a b = true -> le a b.
+  Proof.
+    intros a b Da Db H. split; [|split]; auto.
+    destruct (eq_dec a b); [left; auto | right; apply less_asym; auto].
+  Qed.
 
-  (* every element is not preceded by its parent's successor: parent <= child *)
+  Lemma nless_le : forall a b, dom a -> dom b -> less b a = false -> le a b.
+  Proof. intros. split; [|split]; auto. Qed.
+
+  Definition alld (l : list A) : Prop := forall k, k < length l -> dom (nth k l d).
+
+  Lemma alld_Forall : forall l, Forall dom l <-> alld l.
+  Proof.
+    intros l. unfold alld. rewrite Forall_forall. split.
+    - intros H k Hk. apply H. apply nth_In. auto.
+    - intros H x Hx. destruct (In_nth _ _ d Hx) as [k [Hk <-]]. auto.
+  Qed.
+
+  Lemma alld_swap : forall l i j, alld l -> i < length l -> j < length l ->
+    alld (swap_with l i j (nth i l d) (nth j l d)).
+  Proof.
+    intros l i j H Hi Hj k Hk. rewrite length_swap in Hk. rewrite nth_swap by auto.
+    destruct (k =? j); [auto|]. destruct (k =? i); auto.
+  Qed.
+
+  (* parent <= child everywhere *)
   Definition heap_ok (l : list A) : Prop :=
     forall k, 0 < k < length l -> le (nth ((k - 1) / 2) l d) (nth k l d).
 
-  Lemma root_min : forall l, heap_ok l -> forall k, k < length l -> le (nth 0 l d) (nth k l d).
+  Lemma root_min : forall l, alld l -> heap_ok l -> forall k, k < length l -> le (nth 0 l d) (nth k l d).
   Proof.
-    intros l H k. induction k as [k IH] using lt_wf_ind. intros Hk.
-    destruct (Nat.eq_dec k 0) as [->|]; [apply le_refl|].
+    intros l Hd H k. induction k as [k IH] using lt_wf_ind. intros Hk.
+    destruct (Nat.eq_dec k 0) as [->|]; [apply le_refl; apply Hd; auto|].
     apply le_trans with (nth ((k - 1) / 2) l d).
     - apply IH; lia.
     - apply H. lia.
@@ -246,28 +280,25 @@ Section HeapLemmas.
                le (nth ((j - 1) / 2) l d) (nth c l d)).
 
   Lemma up_heap : forall fuel (l : list A) j l',
-    j < length l -> up less fuel l j = Some l' -> up_inv l j -> heap_ok l'.
+    alld l -> j < length l -> up less fuel l j = Some l' -> up_inv l j -> heap_ok l'.
   Proof.
-    induction fuel as [|f IH]; intros l j l' Hj Hup [Ha Hb]; [discriminate|]. cbn [up] in Hup.
+    induction fuel as [|f IH]; intros l j l' Hd Hj Hup [Ha Hb]; [discriminate|]. cbn [up] in Hup.
     destruct (Nat.eqb_spec ((j - 1) / 2) j) as [E|E].
     - inversion Hup; subst. intros k Hk. apply Ha; lia.
     - assert (Hi : (j - 1) / 2 < j) by lia. set (i := (j - 1) / 2) in *.
       rewrite (get_nth_error l j) in Hup by lia. rewrite (get_nth_error l i) in Hup by lia.
       destruct (less (nth j l d) (nth i l d)) eqn:El.
-      + eapply IH; [| exact Hup |]; [rewrite length_swap; lia|].
-        assert (Hji : le (nth j l d) (nth i l d)) by (apply less_le; auto).
+      + eapply IH; [| | exact Hup |]; [apply alld_swap; auto; lia | rewrite length_swap; lia|].
+        assert (Hji : le (nth j l d) (nth i l d)) by (apply less_le; auto; apply Hd; lia).
         split.
         * intros k Hk Hki. rewrite length_swap in Hk. rewrite !nth_swap by lia.
           destruct (Nat.eqb_spec k j) as [->|Hkj].
-          -- (* the old parent now sits at j, under the old child *)
-             fold i. destruct (Nat.eqb_spec i j); [lia|]. rewrite Nat.eqb_refl. exact Hji.
+          -- fold i. destruct (Nat.eqb_spec i j); [lia|]. rewrite Nat.eqb_refl. exact Hji.
           -- destruct (Nat.eqb_spec k i); [lia|].
              destruct (Nat.eqb_spec ((k - 1) / 2) j) as [Epj|Epj].
-             ++ (* k is a child of j: above it now sits the old parent of j *)
-                apply Hb; lia.
+             ++ apply Hb; lia.
              ++ destruct (Nat.eqb_spec ((k - 1) / 2) i) as [Epi|Epi].
-                ** (* k is the sibling of j *)
-                   apply le_trans with (nth i l d); auto. rewrite <- Epi. apply Ha; lia.
+                ** apply le_trans with (nth i l d); auto. rewrite <- Epi. apply Ha; lia.
                 ** apply Ha; lia.
         * intros c Hc Hpc Hi0. rewrite length_swap in Hc. rewrite !nth_swap by lia.
           destruct (Nat.eqb_spec ((i - 1) / 2) j); [lia|].
@@ -279,18 +310,27 @@ Section HeapLemmas.
              rewrite <- Hpc. apply Ha; lia.
       + inversion Hup; subst. intros k Hk.
         destruct (Nat.eq_dec k j) as [->|]; [|apply Ha; lia].
-        fold i. unfold le. exact El.
+        fold i. apply nless_le; [apply Hd; lia | apply Hd; lia | exact El].
+  Qed.
+
+  Lemma alld_app1 : forall l x, alld l -> dom x -> alld (l ++ [x]).
+  Proof.
+    intros l x H Hx. apply alld_Forall. apply Forall_app. split; [apply alld_Forall; auto | constructor; auto].
   Qed.
 
   Theorem push_heap : forall (l : list A) x l',
-    heap_ok l -> push less l x = Some l' -> heap_ok l'.
+    alld l -> dom x -> heap_ok l -> push less l x = Some l' -> heap_ok l' /\ alld l'.
   Proof.
-    intros l x l' H Hp. unfold push in Hp.
-    eapply up_heap; [| exact Hp |]; [rewrite app_length; simpl; lia|].
-    split.
-    - intros k Hk Hkj. rewrite app_length in Hk. simpl in Hk.
-      rewrite !app_nth1 by lia. apply H. lia.
-    - intros c Hc Hpc. rewrite app_length in Hc. simpl in Hc. lia.
+    intros l x l' Hd Hx H Hp. split.
+    - unfold push in Hp.
+      eapply up_heap; [apply alld_app1; eauto | | exact Hp |]; [rewrite app_length; simpl; lia|].
+      split.
+      + intros k Hk Hkj. rewrite app_length in Hk. simpl in Hk.
+        rewrite !app_nth1 by lia. apply H. lia.
+      + intros c Hc Hpc. rewrite app_length in Hc. simpl in Hc. lia.
+    - destruct (push_perm l x) as [l2 [E2 P2]]. rewrite Hp in E2. inversion E2; subst l2.
+      apply alld_Forall. eapply Permutation_Forall; [symmetry; exact P2|].
+      apply alld_Forall. apply alld_app1; auto.
   Qed.
 
   (* heap on the first n positions, except possibly between i and its children *)
@@ -301,15 +341,15 @@ Section HeapLemmas.
     (forall c, 0 < c < n -> (c - 1) / 2 = i -> 0 < i -> le (nth ((i - 1) / 2) l d) (nth c l d)).
 
   Lemma down_heap : forall fuel (l : list A) i n l',
-    n <= length l -> down less fuel l i n = Some l' -> down_inv l i n -> heap_n l' n.
+    alld l -> n <= length l -> down less fuel l i n = Some l' -> down_inv l i n -> heap_n l' n.
   Proof.
-    induction fuel as [|f IH]; intros l i n l' Hn Hd [Ha Hb]; [discriminate|]. cbn [down] in Hd.
+    induction fuel as [|f IH]; intros l i n l' Hdm Hn Hd [Ha Hb]; [discriminate|]. cbn [down] in Hd.
     destruct (Nat.leb_spec n (2 * i + 1)) as [E|E].
     - inversion Hd; subst. intros k Hk. apply Ha; lia.
     - set (j1 := 2 * i + 1) in *.
       rewrite (get_nth_error l j1) in Hd by lia. rewrite (get_nth_error l i) in Hd by lia.
       set (x1 := nth j1 l d) in *. set (xi := nth i l d) in *.
-      (* the chosen child j is the smaller one *)
+      assert (D1 : dom x1) by (apply Hdm; lia). assert (Di : dom xi) by (apply Hdm; lia).
       assert (Hpick : exists j,
         (if S j1 <? n
          then match nth_error l (S j1) with
@@ -320,17 +360,19 @@ Section HeapLemmas.
         forall c, 0 < c < n -> (c - 1) / 2 = i -> le (nth j l d) (nth c l d)).
       { destruct (Nat.ltb_spec (S j1) n).
         - rewrite (get_nth_error l (S j1)) by lia.
+          assert (D2 : dom (nth (S j1) l d)) by (apply Hdm; lia).
           destruct (less (nth (S j1) l d) x1) eqn:E2.
-          + exists (S j1). repeat split; auto. intros c Hc Hpc.
-            assert (c = j1 \/ c = S j1) as [->| ->] by lia; [apply less_le; auto | apply le_refl].
-          + exists j1. repeat split; auto; try lia. intros c Hc Hpc.
-            assert (c = j1 \/ c = S j1) as [->| ->] by lia; [apply le_refl | exact E2].
-        - exists j1. repeat split; auto; try lia. intros c Hc Hpc.
-          assert (c = j1) as -> by lia. apply le_refl. }
+          + exists (S j1). split; [reflexivity|]. split; [auto|]. split; [lia|]. intros c Hc Hpc.
+            assert (c = j1 \/ c = S j1) as [->| ->] by lia; [apply less_le; auto | apply le_refl; auto].
+          + exists j1. split; [reflexivity|]. split; [auto|]. split; [lia|]. intros c Hc Hpc.
+            assert (c = j1 \/ c = S j1) as [->| ->] by lia; [apply le_refl; auto | apply nless_le; auto].
+        - exists j1. split; [reflexivity|]. split; [auto|]. split; [lia|]. intros c Hc Hpc.
+          assert (c = j1) as -> by lia. apply le_refl; auto. }
       destruct Hpick as [j [Ep [Hjc [Hjn Hmin]]]]. rewrite Ep in Hd.
       assert (Hpj : (j - 1) / 2 = i) by lia. assert (Hij : i < j) by lia.
+      assert (Dj : dom (nth j l d)) by (apply Hdm; lia).
       destruct (less (nth j l d) xi) eqn:El.
-      + eapply IH; [| exact Hd |]; [rewrite length_swap; lia|].
+      + eapply IH; [| | exact Hd |]; [apply alld_swap; auto; lia | rewrite length_swap; lia|].
         assert (Hji : le (nth j l d) xi) by (apply less_le; auto).
         split.
         * intros k Hk Hpk. rewrite !nth_swap by lia.
@@ -338,10 +380,9 @@ Section HeapLemmas.
           -- rewrite Hpj. destruct (Nat.eqb_spec i j); [lia|]. rewrite Nat.eqb_refl. exact Hji.
           -- destruct (Nat.eqb_spec ((k - 1) / 2) j); [lia|].
              destruct (Nat.eqb_spec k i) as [->|Hki].
-             ++ (* i itself: above it its old parent, now holding... unchanged *)
-                destruct (Nat.eqb_spec ((i - 1) / 2) i); [lia|]. apply Hb; lia.
+             ++ destruct (Nat.eqb_spec ((i - 1) / 2) i); [lia|]. apply Hb; lia.
              ++ destruct (Nat.eqb_spec ((k - 1) / 2) i) as [Epi|Epi].
-                ** (* the other child of i *) apply Hmin; lia.
+                ** apply Hmin; lia.
                 ** apply Ha; lia.
         * intros c Hc Hpc Hj0. rewrite !nth_swap by lia.
           rewrite Hpj. destruct (Nat.eqb_spec i j); [lia|]. rewrite Nat.eqb_refl.
@@ -349,31 +390,33 @@ Section HeapLemmas.
           rewrite <- Hpc. apply Ha; lia.
       + injection Hd as <-. intros k Hk.
         destruct (Nat.eq_dec ((k - 1) / 2) i) as [Epk|Epk]; [|apply Ha; lia].
-        rewrite Epk. apply le_trans with (nth j l d); [exact El | apply Hmin; lia].
+        rewrite Epk. apply le_trans with (nth j l d); [apply nless_le; auto | apply Hmin; lia].
   Qed.
 
-  (* MAIN: on a heap, Pop returns an element that no element of the queue
-     precedes, and leaves a heap *)
+  (* MAIN (one step): on a heap of [dom] elements, Pop returns an element that
+     no OTHER element of the queue precedes, and leaves a heap *)
   Theorem pop_min_heap : forall (l : list A) x rest,
-    heap_ok l -> pop less l = PopOk x rest ->
-    heap_ok rest /\ (forall y, In y l -> less y x = false) /\ Permutation (x :: rest) l.
+    alld l -> heap_ok l -> pop less l = PopOk x rest ->
+    heap_ok rest /\ alld rest /\ (forall y, In y l -> y = x \/ less y x = false) /\
+    Permutation (x :: rest) l.
   Proof.
-    intros l x rest H Hp. pose proof (pop_perm l) as PP. rewrite Hp in PP.
-    destruct PP as [P Hx]. split; [|split; auto].
-    - (* shape *)
-      unfold pop in Hp. destruct l as [|x0 r] eqn:El; [discriminate|]. rewrite <- El in *.
+    intros l x rest Hdm H Hp. pose proof (pop_perm l) as PP. rewrite Hp in PP.
+    destruct PP as [P Hx]. split; [|split; [|split; auto]].
+    - unfold pop in Hp. destruct l as [|x0 r] eqn:El; [discriminate|]. rewrite <- El in *.
       assert (Hlen : length l = S (length r)) by (subst; reflexivity).
       set (n := length l - 1) in *.
       rewrite (get_nth_error l n) in Hp by lia.
       set (l1 := swap_with l 0 n x0 (nth n l d)) in *.
       destruct (down less (S (length l)) l1 0 n) as [l2|] eqn:E2; [|discriminate].
       assert (L1 : length l1 = length l) by apply length_swap.
+      assert (X0 : x0 = nth 0 l d) by (subst l; reflexivity).
+      assert (D1 : alld l1) by (unfold l1; rewrite X0; apply alld_swap; auto; lia).
       destruct (down_perm (S (length l)) l1 0 n) as [l2' [E2' [P2 _]]]; [lia | lia |].
       rewrite E2 in E2'. inversion E2'; subst l2'.
       assert (L2 : length l2 = length l) by (rewrite (Permutation_length P2); auto).
       rewrite (get_nth_error l2 n) in Hp by lia. inversion Hp as [[Hx' Hr]].
       assert (Hh : heap_n l2 n).
-      { eapply down_heap; [| exact E2 |]; [lia|]. split.
+      { eapply down_heap; [exact D1 | | exact E2 |]; [lia|]. split.
         - intros k Hk Hpk. unfold l1. rewrite !nth_swap by lia.
           destruct (Nat.eqb_spec ((k - 1) / 2) n); [lia|].
           destruct (Nat.eqb_spec ((k - 1) / 2) 0); [lia|].
@@ -382,60 +425,124 @@ Section HeapLemmas.
         - intros; lia. }
       intros k Hk. rewrite firstn_length in Hk.
       rewrite !nth_firstn_lt by lia. apply Hh. lia.
-    - (* minimality: x is the old root *)
-      intros y Hy. destruct (In_nth _ _ d Hy) as [k [Hk <-]].
-      rewrite Hx. apply (root_min l H k Hk).
+    - apply alld_Forall. apply alld_Forall in Hdm.
+      assert (F : Forall dom (x :: rest)) by (eapply Permutation_Forall; [symmetry; exact P | exact Hdm]).
+      inversion F; auto.
+    - intros y Hy. destruct (In_nth _ _ d Hy) as [k [Hk <-]].
+      rewrite Hx. destruct (root_min l Hdm H k Hk) as [_ [_ [E|E]]]; auto.
   Qed.
-  (* ---------- histories under a strict weak order ---------- *)
-  Definition good (st : option (list A) * list (option A)) : Prop :=
-    exists l, fst st = Some l /\ heap_ok l.
 
-  Lemma step_good : forall st o, good st -> good (step less st o).
+  (* ---------- histories ---------- *)
+  Definition good (st : option (list A) * list (option A)) : Prop :=
+    exists l, fst st = Some l /\ heap_ok l /\ alld l.
+
+  Definition op_dom (o : op (A:=A)) : Prop := match o with OpPush x => dom x | OpPop => True end.
+
+  Lemma step_good : forall st o, good st -> op_dom o -> good (step less st o).
   Proof.
-    intros [[l|] outs] o [l0 [E H]]; simpl in E; inversion E; subst l0.
+    intros [[l|] outs] o [l0 [E [H Hd]]] Ho; simpl in E; inversion E; subst l0.
     destruct o as [x|]; simpl.
     - destruct (push_perm l x) as [l1 [E1 _]]. rewrite E1. exists l1. split; auto.
       eapply push_heap; eauto.
     - pose proof (pop_perm l) as PP. destruct (pop less l) as [| |x rest] eqn:Ep.
       + exists l. auto.
       + destruct PP.
-      + exists rest. split; auto. eapply pop_min_heap; eauto.
+      + exists rest. split; auto. destruct (pop_min_heap l x rest Hd H Ep) as [A1 [A2 _]]. auto.
   Qed.
 
   Lemma heap_ok_nil : heap_ok [].
   Proof. intros k Hk. simpl in Hk. lia. Qed.
 
-  (* no history ever fails (index out of range, fuel) and the backing slice is
-     always a heap *)
-  Theorem run_good : forall ops, good (run less ops).
+  Lemma pushed_dom : forall ops, Forall dom (pushed ops) <-> Forall op_dom ops.
   Proof.
-    intros ops. unfold run.
-    assert (G : forall ops st, good st -> good (fold_left (step less) ops st)).
-    { induction ops0 as [|o ops0 IH]; intros st H; simpl; auto. apply IH. apply step_good. auto. }
-    apply G. exists []. split; auto. apply heap_ok_nil.
+    induction ops as [|[x|] ops IH]; simpl.
+    - split; constructor.
+    - split; intros H; inversion H; subst; constructor; auto; apply IH; auto.
+    - rewrite IH. split; intros H; [constructor; simpl; auto | inversion H; auto].
   Qed.
 
-  (* MAIN: after ANY history of pushes and pops, Pop returns an element that no
-     queued element precedes, and removes exactly that element *)
-  Theorem heap_pop_minimal : forall ops l outs x rest,
-    run less ops = (Some l, outs) -> pop less l = PopOk x rest ->
-    (forall y, In y l -> less y x = false) /\ Permutation (x :: rest) l.
+  (* no history that pushes [dom] elements ever fails, and the backing slice is always a heap *)
+  Theorem run_good : forall ops, Forall dom (pushed ops) -> good (run less ops).
   Proof.
-    intros ops l outs x rest Hr Hp. destruct (run_good ops) as [l0 [E H]].
+    intros ops Hp. apply pushed_dom in Hp. unfold run.
+    assert (G : forall ops st, Forall op_dom ops -> good st -> good (fold_left (step less) ops st)).
+    { induction ops0 as [|o ops0 IH]; intros st Ho H; simpl; auto.
+      inversion Ho; subst. apply IH; auto. apply step_good; auto. }
+    apply G; auto. exists []. split; auto. split; [apply heap_ok_nil|]. intros k Hk. simpl in Hk. lia.
+  Qed.
+
+  (* MAIN: after ANY history of pushes (of [dom] elements) and pops, Pop returns
+     an element that no OTHER queued element precedes, and removes exactly it *)
+  Theorem heap_pop_minimal : forall ops l outs x rest,
+    Forall dom (pushed ops) ->
+    run less ops = (Some l, outs) -> pop less l = PopOk x rest ->
+    (forall y, In y l -> y = x \/ less y x = false) /\ Permutation (x :: rest) l.
+  Proof.
+    intros ops l outs x rest Hd Hr Hp. destruct (run_good ops Hd) as [l0 [E [H Hl]]].
     rewrite Hr in E. simpl in E. inversion E; subst l0.
-    destruct (pop_min_heap l x rest H Hp) as [_ [Hm P]]. auto.
+    destruct (pop_min_heap l x rest Hl H Hp) as [_ [_ [Hm P]]]. auto.
+  Qed.
+
+  (* ---------- push everything, pop until empty: the pop order is sorted ---------- *)
+  (* every element is followed only by elements that do not precede it *)
+  Definition sorted_by (out : list A) : Prop :=
+    ForallOrdPairs (fun x y => y = x \/ less y x = false) out.
+
+  Lemma drain_ok : forall fuel l, length l <= fuel -> alld l -> heap_ok l ->
+    exists out, drain less fuel l = Some out /\ Permutation out l /\ sorted_by out.
+  Proof.
+    induction fuel as [|f IH]; intros l Hl Hd H.
+    - destruct l; simpl in Hl; [|lia]. exists []. repeat split; auto. constructor.
+    - simpl. pose proof (pop_perm l) as PP. destruct (pop less l) as [| |x rest] eqn:Ep.
+      + subst l. exists []. repeat split; auto. constructor.
+      + destruct PP.
+      + destruct (pop_min_heap l x rest Hd H Ep) as [H1 [H2 [Hm P]]].
+        assert (Lr : length rest <= f).
+        { apply Permutation_length in P. simpl in P. lia. }
+        destruct (IH rest Lr H2 H1) as [out [Eo [Po So]]]. rewrite Eo.
+        exists (x :: out). split; auto. split.
+        * rewrite <- P. constructor. exact Po.
+        * constructor; auto. apply Forall_forall. intros y Hy. apply Hm.
+          eapply Permutation_in; [exact P|]. right. eapply Permutation_in; [exact Po | exact Hy].
+  Qed.
+
+  Lemma push_all_ok : forall xs l0, alld l0 -> heap_ok l0 -> Forall dom xs ->
+    exists l, fold_left (fun st x => match st with Some l => push less l x | None => None end) xs (Some l0) = Some l /\
+              Permutation l (l0 ++ xs) /\ heap_ok l /\ alld l.
+  Proof.
+    induction xs as [|x xs IH]; intros l0 Hd H Hx; simpl.
+    - exists l0. rewrite app_nil_r. auto.
+    - inversion Hx; subst. destruct (push_perm l0 x) as [l1 [E1 P1]]. rewrite E1.
+      destruct (push_heap l0 x l1 Hd H2 H E1) as [A1 A2].
+      destruct (IH l1 A2 A1 H3) as [l [E [P [B1 B2]]]]. exists l. split; auto. split; auto.
+      rewrite P, P1, <- app_assoc. reflexivity.
+  Qed.
+
+  (* MAIN: BuildVictimsPriorityQueue-style use - push a list of [dom] elements,
+     pop until empty: never fails, returns a permutation in which no later
+     element precedes an earlier one *)
+  Theorem heap_sort_sorted : forall xs, Forall dom xs ->
+    exists out, heap_sort less xs = Some out /\ Permutation out xs /\ sorted_by out.
+  Proof.
+    intros xs Hx. unfold heap_sort, push_all.
+    destruct (push_all_ok xs [] (fun k Hk => ltac:(simpl in Hk; lia)) heap_ok_nil Hx) as [l [E [P [H Hd]]]].
+    rewrite E. destruct (drain_ok (length l) l (le_n _) Hd H) as [out [Eo [Po So]]].
+    exists out. split; auto. split; auto. rewrite Po, P. reflexivity.
   Qed.
 End HeapLemmas.
 
-(* non-vacuity: integer "<" meets the hypotheses and a concrete history runs *)
+(* non-vacuity: integer "<" meets the hypotheses on every set and a concrete history runs *)
 Example heap_nonvacuous :
-  (forall a b, Z.ltb a b = true -> Z.ltb b a = false) /\
-  (forall a b c, Z.ltb a c = true -> Z.ltb a b = true \/ Z.ltb b c = true) /\
+  (forall a b : Z, True -> True -> a <> b -> Z.ltb a b = true -> Z.ltb b a = false) /\
+  (forall a b c : Z, True -> True -> True -> a <> b -> b <> c -> a <> c ->
+                     Z.ltb a c = true -> Z.ltb a b = true \/ Z.ltb b c = true) /\
   run Z.ltb [OpPush 5%Z; OpPush 3%Z; OpPush 4%Z; OpPop; OpPush 1%Z; OpPop; OpPop; OpPop; OpPop] =
-  (Some [], [Some 3%Z; Some 1%Z; Some 4%Z; Some 5%Z; None]).
+  (Some [], [Some 3%Z; Some 1%Z; Some 4%Z; Some 5%Z; None]) /\
+  heap_sort Z.ltb [5%Z; 3%Z; 4%Z; 3%Z; 1%Z] = Some [1%Z; 3%Z; 3%Z; 4%Z; 5%Z].
 Proof.
-  split; [|split].
-  - intros a b H. apply Z.ltb_lt in H. apply Z.ltb_ge. lia.
-  - intros a b c H. apply Z.ltb_lt in H. destruct (Z.ltb_spec a b); auto. right. apply Z.ltb_lt. lia.
+  split; [|split; [|split]].
+  - intros a b _ _ _ H. apply Z.ltb_lt in H. apply Z.ltb_ge. lia.
+  - intros a b c _ _ _ _ _ _ H. apply Z.ltb_lt in H. destruct (Z.ltb_spec a b); auto. right. apply Z.ltb_lt. lia.
+  - vm_compute. reflexivity.
   - vm_compute. reflexivity.
 Qed.
